@@ -29,10 +29,12 @@ package cli
 
 // (the only panic left is the one raised when the bootstrap logger cannot be built)
 //@ func readConfig
-//@ props C13 C17
+//@ props C13 C17 C04
 //@ nilsafe
 //@ may_panic true
 //@ loop 0 step [discard-overflow-is-on-unless-configured] imp(ok, has(poolMap, "discard_overflow"))
+//@ loop 0 step [an-explicit-setting-is-kept] imp(ok && iter(has(pools[rangeidx-1].(map[string]any), "discard_overflow")), poolMap["discard_overflow"] == iter(pools[rangeidx-1].(map[string]any)["discard_overflow"]))
+//@ loop 0 step [an-absent-setting-means-on] imp(ok && !iter(has(pools[rangeidx-1].(map[string]any), "discard_overflow")), poolMap["discard_overflow"] == box(true))
 //@ loop 0 invariant [every-pool-so-far-has-the-setting] forall(k, 0, rangeidx, imp(typeis(pools[k], map[string]any), has(pools[k].(map[string]any), "discard_overflow")))
 //@ at call v.Set assert [every-pool-has-the-setting] forall(k, 0, len(pools), imp(typeis(pools[k], map[string]any), has(pools[k].(map[string]any), "discard_overflow")))
 //@ at call config.DecodeAndValidate assert [decoded-into-the-defaults] arg(a1) == box(result_of(DefaultConfig, 0))
